@@ -300,32 +300,10 @@ Print Assumptions C09_accessors_map.
 Example C09_accessors_map_ex : acc_branch1 S [4] = Bare 5 /\ acc_branch1 S [4; 6] = PList [5; 7] /\ acc_map_unwrap S [4] = Bare 5.
 Proof. repeat split. Qed.
 
-(* accessors that read self.data[0] (Twist3.v/.w, Twist2.v/.w and pitch/theta/pole/ad built on them).
-   Full statement:  acc_first f l = Ok v -> to_list v = Some (map f l)   -- FALSE for an object holding 2 values *)
-Theorem C09_acc_first_refuted : exists (l : list nat) v, acc_first S l = Ok v /\ to_list v <> Some (map S l).
-Proof. exists [1; 2], (Bare 2). split; [reflexivity|discriminate]. Qed.
-Print Assumptions C09_acc_first_refuted.
-
-Theorem C09_acc_first_partial : forall A C (f : A -> C) l v, length l = 1 ->
-  acc_first f l = Ok v -> to_list v = Some (map f l).
-Proof. intros A C f l v H. split_list l; try discriminate H. simpl. intros E; injection E as <-. reflexivity. Qed.
-Print Assumptions C09_acc_first_partial.
-Example C09_acc_first_partial_ex : length [3] = 1 /\ acc_first S [3] = Ok (Bare 4).
-Proof. split; reflexivity. Qed.
-
-(* accessors that hand the whole object to a single-value kernel (SO3.angvec, UnitQuaternion.angvec, SO2.R,
-   Quaternion.matrix/log/exp, ...).   Full statement:  exists v, acc_single f e l = Ok v /\ to_list v = Some (map f l)
-   -- FALSE for an object holding 2 values (the call raises) *)
-Theorem C09_acc_single_refuted : exists (l : list nat) e, forall v, acc_single S e l <> Ok v.
-Proof. exists [1; 2], TypeError. intros v; discriminate. Qed.
-Print Assumptions C09_acc_single_refuted.
-
-Theorem C09_acc_single_partial : forall A C (f : A -> C) e l, length l = 1 ->
-  exists v, acc_single f e l = Ok v /\ to_list v = Some (map f l).
-Proof. intros A C f e l H. split_list l; try discriminate H. eexists; split; reflexivity. Qed.
-Print Assumptions C09_acc_single_partial.
-Example C09_acc_single_partial_ex : acc_single S TypeError [3] = Ok (Bare 4).
-Proof. reflexivity. Qed.
+(* The _refuted/_partial pairs C09_acc_first_* (accessors reading self.data[0]) and C09_acc_single_* (accessors handing the whole
+   object to a single-value kernel) stood here while the code had such accessors.  Fix round 6 gave every one of them a sequence
+   branch (42a8032 3803e60 5d38d76 7b9d842 77cb365 a77df5a 3804c67; earlier 98c866c 4908bfb 66f9b8b), so all per-value accessors of the
+   eight classes now have one of the three shapes of C09_accessors_map, which is the full-strength statement. *)
 
 (* ================================================================= interpolation over a vector of s *)
 Theorem C09_interp_vector_s : forall A S C (f : A -> S -> C) a s, s <> [] ->
